@@ -171,7 +171,7 @@ LAST_STRETCH = {
  'C01': 'RegularArray::getitem_next(SliceJagged64) over a content longer than size * length (the content asked is exactly the reachable items, one (start, stop) pair per item); '
         'ListOffsetArray{32,U32,64}::asslice (an array used as a slice item: zero-based offsets around what the reachable content answers).',
  'C02': 'Also: RegularArray::getitem_next(SliceJagged64) over a longer content, ListOffsetArray::asslice with any offsets origin, IndexedArray*::mergemany with every index class first and second, '
-        'bytemask() a canonical 0/1 byte in every option encoding.',
+        'bytemask() a canonical 0/1 byte in every option encoding. IndexedArray::is_unique with an index window; simplify_uniontype of a union over the same buffer region twice; BitMaskedArray conversions with a padded mask.',
  'C03': 'IndexedArray64::reduce_next (no missing values) with shifts coming in from an enclosing list: they are handed on unchanged (argmax / argmin across ragged lists).',
  'C06': 'IndexedOptionArray64 / IndexedArray64::argsort_next called the way the enclosing list calls them for a sort across lists (groups = columns, incoming shifts from concrete ragged row shapes): '
         'a missing value gets its row as position, the shifts reach the content; kernel awkward_ListOffsetArray_argsort_strings with the inlined std::sort / std::stable_sort on groups of <= 3 strings of <= 3 symbolic bytes: '
@@ -180,11 +180,14 @@ LAST_STRETCH = {
  'C10': 'RecordArray::field / fieldindex / haskey by key with util::fieldindex: a key is the field of that name, else the position it spells exactly ("0", "1", ...), else std::invalid_argument (haskey: false, never raises) - '
         'keys with a numeric prefix, sign, blank, leading zero, beyond int, empty, and fields named by digits.',
  'C11': 'ListOffsetArray64::validityerror with the offsets a window into a longer buffer: the rule kernel (decided on its own above) is handed the window\'s starts and stops, the list count and the content length; '
-        'otherwise the content\'s answer is returned. getitem_next_missing_jagged (a jagged slice with None lists, the content answering opaque or with a real IndexedOptionArray64): spans per entry, None where either has None, no option node directly inside another.',
+        'otherwise the content\'s answer is returned. getitem_next_missing_jagged (a jagged slice with None lists, the content answering opaque or with a real IndexedOptionArray64): spans per entry, None where either has None, no option node directly inside another. validityerror of ListArray64 / IndexedArray64 / IndexedOptionArray64 with index buffers that are windows into longer buffers (the windows, the entry count, the content length and the option flag reach the rule kernel); is_unique of the indexed classes asks exactly about the non-missing entries the window selects.',
  'C17': 'RecordArray::key(position) for every 64-bit position (name inside, std::invalid_argument outside - also below zero); form(materialize) of every list / indexed / option node class (15 classes and variants): a Form of the node\'s own kind, '
         'index tags naming the real width, size / valid_when / lsb_order the node\'s, no identities, content form = the content\'s answer (read back from memory; replay through Form::tojson); NumpyArray::form (inner shape, item size, format, dtype) and RecordArray::form (shared names, one content form per field in order); '
-        'type() of the 15 list / indexed / option node classes without parameters: var * T, size * T, ?T, T with T the type the content form reports (replay through Type::tostring).',
+        'type() of the 15 list / indexed / option node classes without parameters: var * T, size * T, ?T, T with T the type the content form reports (replay through Type::tostring). RecordArray depth queries over fields of arbitrary depths ((1, 1) / (false, 1) without fields); NumpyArray::type (d1 * d2 * ... * dtype outermost first); UnionArray8_{32,U32,64}::form.',
  'C19': 'Every paused program template additionally with a word call()ed between each pause and its resume (same final state as the uninterrupted run); ForthOutputBuffer::rewind for every 64-bit count.',
+ 'C08': 'simplify_uniontype of a union whose two contents are the same buffer region (referentially equal): the index entries of the second are not shifted.',
+ 'C12': 'BitMaskedArray::project / toIndexedOptionArray64 / toByteMaskedArray (and the ByteMaskedArray conversions) with a mask one or two bytes longer than the entries need: every kernel write inside the buffers sized from it.',
+ 'C14': 'ListBuilder::clear from an open list and UnionBuilder::clear with a member active (no list open / no member active afterwards); Indexed{I32,IU32,I64}Builder::append(own array, at) = the content position entry `at` shows, snapshot = indexed / option-type array over that content, clear forgets the null flag; the native witness of the leaf clear harnesses refills with other lengths.',
 }
 for k_, v_ in LAST_STRETCH.items():
     CLAIMED[k_]['text'] = CLAIMED[k_]['text'].rstrip() + ' Last stretch (DESIGN.md 9.8): ' + v_
